@@ -12,3 +12,27 @@ pub(crate) const SUBSCRIPT_OUT_OF_RANGE: u16 = ErrorCode::SubscriptOutOfRange as
 pub(crate) const OUT_OF_MEMORY: u16 = ErrorCode::OutOfMemory as u16;
 pub(crate) const INTERNAL_ERROR: u16 = ErrorCode::InternalError as u16;
 pub(crate) const UNDEFINED_LINE: u16 = ErrorCode::UndefinedLine as u16;
+
+pub(crate) fn raw_column(e: &Error) -> Column {
+    e.column.clone()
+}
+
+//@ prop: C19
+//@ tier: quick
+//@ unwind: 12
+//@ encodes: Error::column (re-basing by the line-number prefix); Error::in_line_number; Error::in_column
+//@ bounds: every line number 0..=65535 or none (direct line); every column range with start, end < 2^16
+vk_harness!(c19_error_column_is_rebased_by_the_line_number_prefix, {
+    let (a, b) = (crate::vk::any_u16() as usize, crate::vk::any_u16() as usize);
+    let n = crate::vk::any_u16();
+    let direct = crate::vk::any_bool();
+    let e = Error::new(ErrorCode::UndefinedLine).in_line_number(if direct { None } else { Some(n) }).in_column(&(a..b));
+    let got = e.column();
+    // the listed line is "<number> <text>": the text starts after the digits and one blank
+    let digits = if n >= 10000 { 5 } else if n >= 1000 { 4 } else if n >= 100 { 3 } else if n >= 10 { 2 } else { 1 };
+    let shift = if direct { 0 } else { digits + 1 };
+    vk_check!(got.start == a + shift && got.end == b + shift, "C19: a diagnostic's range must point into the LISTED line (shifted by the line-number prefix)");
+    vk_cover!(!direct && n >= 10000, "reach: five-digit line number");
+    vk_cover!(direct, "reach: direct line");
+    core::mem::forget(e);
+});
